@@ -303,6 +303,22 @@ def run(ctx):
                        'and the directory is reported as an error instead of being cut to the limit' % (
                            render(arg(c, 0)), cap if cap is not None else 'the result buffer, i.e. datasource_message_max_length + 1'),
                        how='local array of %s bytes (PATH_MAX + 1)' % cap)
+            if c['callee'] == 'strftime' and name == 'datetime':
+                # strftime(buf, max, ..) counts the terminator in max: given less than the buffer, an expansion that
+                # fills the buffer exactly is refused (returns 0) although it fits
+                b0 = decl_of(arg(c, 0))
+                cap = next((x.get('size') for x in f.local_decls() if b0 is not None and x['id'] == b0['id'] and 'arrayLen' in x), None)
+                from engine.dataflow import def_exprs as _dx
+                mx = strip(arg(c, 1))
+                mv = mx.get('v') if mx is not None else None
+                if mv is None and mx is not None and decl_of(mx) is not None:
+                    vals = {strip(x).get('v') for x in _dx(f, decl_of(mx)['id'])}
+                    mv = vals.pop() if len(vals) == 1 else None
+                if cap is not None:
+                    chk.ob('Q3', 'datetime:strftime-is-given-the-whole-buffer', mv is not None and mv == cap, c.where(), f.name,
+                           'strftime() is told its buffer has %s bytes, the buffer has %s: a time text of exactly %s characters, '
+                           'which fits, is reported as an error' % (mv if mv is not None else render(mx)[:30], cap, cap - 1),
+                           how='max = sizeof buffer = %s' % cap, nontrivial=False)
             if c['callee'] == 'gethostname' and name == 'hostname':
                 # gethostname(buf, len) fails (ENAMETOOLONG) unless len > strlen(name): the length it is given has to
                 # hold every name the kernel allows, 64 bytes and the terminator - the data source's own size
